@@ -37,6 +37,15 @@ Theorem C05_final_state_is_spec_partial :
 Proof. exact C05.w7_sweep. Qed.
 Print Assumptions C05_final_state_is_spec_partial.
 
+(* the cascade of re-indexing is unbounded in the code and fuelled in the model: with enough fuel (12 in every
+   correspondence run) a second world agrees with the SPEC on all its arrival orders; with fuel 4 it does not *)
+Theorem C05_fuel_matters :
+  forallb (C05.agrees_with 12 C05.wq) (C05.perms [1; 2; 3; 4]%N) = true /\
+  forallb (C05.agrees_with 5 C05.wq) (C05.perms [1; 2; 3; 4]%N) = true /\
+  C05.agrees_with 4 C05.wq [3; 2; 4; 1]%N = false.
+Proof. exact C05.fuel_matters. Qed.
+Print Assumptions C05_fuel_matters.
+
 Example C05_nonvacuous :
   status_of (run C05.w7 12 [5; 4; 7; 3; 1; 2; 6]%N) 5%N = Some Full /\
   status_of (run C05.w7 12 [5; 4; 7; 3; 2; 6]%N) 5%N = Some (Pending 1%N) /\
